@@ -136,3 +136,161 @@ def synthetic_case(seed=0, settings=None, **kw):
     c = Case("akimotoite", deep_update(base, settings), input01_text=t1, elast_text=t2)
     c.description = desc
     return c
+
+
+# ---------------------------------------------------------------------------------------------------------------------------------------------
+# interleaving battery: two calculations in one process that COLLIDE on everything a careless cache could be keyed by, against each of them alone in a fresh process
+def snapshot(calc, reverse=False):
+    """every array-valued result of a Calculator that the properties talk about, as plain numpy arrays (reverse: read in the opposite order)"""
+    out = {}
+    for which in (("modulus_adiabatic", "modulus_isothermal") if reverse else ("modulus_isothermal", "modulus_adiabatic")):
+        for k, v in getattr(calc, which).items():
+            out["tv.%s.%r" % (which, k)] = numpy.array(v, dtype=float, copy=True)
+        for k, v in getattr(calc.pressure_base, which).items():
+            out["tp.%s.%r" % (which, k)] = numpy.array(v, dtype=float, copy=True)
+    for base, tag in (((calc.pressure_base, "tp"), (calc.volume_base, "tv")) if reverse else ((calc.volume_base, "tv"), (calc.pressure_base, "tp"))):
+        for n in ("bulk_modulus_voigt", "bulk_modulus_reuss", "bulk_modulus_voigt_reuss_hill", "shear_modulus_voigt", "shear_modulus_reuss", "shear_modulus_voigt_reuss_hill",
+                  "primary_velocities", "secondary_velocities"):
+            out["%s.%s" % (tag, n)] = numpy.array(getattr(base, n), dtype=float, copy=True)
+    out["v_array"], out["t_array"] = numpy.array(calc.v_array, dtype=float), numpy.array(calc.qha_calculator.t_array, dtype=float)
+    return out
+
+
+def _collision_pair(seed):
+    """texts of two data sets A, B with the same file names, shapes, volume end points and count, component SET and q-point coordinates, but different interior volumes,
+    another column order of the static table and different values"""
+    a1, a2, da = synthetic_texts(seed, nv=8, nq=3, na=2, system="orthorhombic")
+    b1, b2, db = synthetic_texts(seed + 100, nv=8, nq=3, na=2, system="orthorhombic")
+    # B: interior volumes moved (end points and count kept) -- rewrite both files consistently through the package's own reader / writer
+    import io as _io, re as _re
+    VA = numpy.array(da["V"])
+    VB = VA.copy()
+    VB[1:-1] = VA[1:-1] + numpy.array([4.0, -3.0, 5.0, -2.0, 3.5, -4.5])[:len(VA) - 2]
+    for old, new in zip(VA, VB):
+        b1 = b1.replace("V= %12.6f" % old, "V= %12.6f" % new)
+        b2 = b2.replace("%.8f " % old, "%.8f " % new, 1)
+    lines = b2.split("\n")
+    hdr = lines[2].split()
+    perm = [0] + list(numpy.random.RandomState(seed).permutation(len(hdr) - 1) + 1)
+    for i in range(2, 3 + len(VB)):
+        f = lines[i].split()
+        lines[i] = " ".join(f[j] for j in perm)
+    return (a1, a2), (b1, "\n".join(lines))
+
+
+_SUB = r'''
+import sys, pickle, warnings, numpy
+sys.path.insert(0, %(verif)r)
+warnings.simplefilter("ignore")
+from contracts import calc_env
+from cij.core.calculator import Calculator
+with numpy.errstate(all="ignore"):
+    c = Calculator(sys.argv[1])
+    snap = calc_env.snapshot(c, reverse=True)          # the other read order: results must not depend on what was read before
+    import os, tempfile
+    d = tempfile.mkdtemp(prefix="cijalone_")
+    os.chdir(d)
+    c.write_output()
+    snap["__files__"] = {f: open(os.path.join(d, f), "rb").read() for f in sorted(os.listdir(d))}
+    pickle.dump(snap, open(sys.argv[2], "wb"))
+    import shutil
+    os.chdir("/")
+    shutil.rmtree(d, ignore_errors=True)
+'''
+
+_BATTERY = {}
+
+
+def interleaving_battery(seed=3):
+    """-> {"reproduced": bool, ...}; cached per checker process (and per /repo copy)"""
+    import pickle, subprocess, sys as _sys
+    key = (core.REPO, seed)
+    if key in _BATTERY:
+        return _BATTERY[key]
+    (a1, a2), (b1, b2) = _collision_pair(seed)
+    st = {"qha": {"settings": {"NT": 5, "DT": 350, "DT_SAMPLE": 350, "NTV": 15, "DELTA_P": 3.0, "DELTA_P_SAMPLE": 3.0, "T_MIN": 0, "P_MIN": 0, "order": 3, "volume_ratio": 1.2}},
+          "elast": {"settings": {"mode_gamma": {"interpolator": "lsq_poly", "order": 3}, "symmetry": {"system": "orthorhombic"}}},
+          "output": {"pressure_base": ["cij", "cij_t", "bm_VRH", "vs"], "volume_base": ["p", "G_V"]}}
+    A, B = Case("akimotoite", st, input01_text=a1, elast_text=a2), Case("akimotoite", st, input01_text=b1, elast_text=b2)
+    # A spells out non-default nested settings and overrides an output unit; B leaves every nested setting it can to the packaged defaults and uses plain keywords
+    sa = {"qha": {"input": "input01", "settings": dict(st["qha"]["settings"], volume_ratio=1.25, order=4)},
+          "elast": {"input": "input02", "settings": {"mode_gamma": {"interpolator": "spline", "order": 2}, "symmetry": {"system": "orthorhombic"}}},
+          "output": {"pressure_base": ["cij_t", "cij", {"keyword": "bm_VRH", "unit": "kbar"}, "vs"], "volume_base": [{"keyword": "p", "unit": "kbar"}, "G_V"]}}
+    sb = {"qha": {"input": "input01", "settings": {k: v for k, v in st["qha"]["settings"].items() if k not in ("volume_ratio", "order", "T_MIN", "P_MIN")}},
+          "elast": {"input": "input02", "settings": {"symmetry": {"system": "orthorhombic"}}},
+          "output": {"pressure_base": ["cij", "cij_t", "bm_VRH", "vs"], "volume_base": ["p", "G_V"]}}
+    for case, sett in ((A, sa), (B, sb)):
+        with open(os.path.join(case.dir, "settings.yaml"), "w") as fp:
+            yaml.safe_dump(sett, fp)
+    res = {"reproduced": False}
+    try:
+        env = dict(os.environ, PYTHONPATH=os.pathsep.join([core.REPO, core.HERE] + [p for p in os.environ.get("PYTHONPATH", "").split(os.pathsep) if p]), PYTHONWARNINGS="ignore")
+        procs = []
+        for tag, case in (("A", A), ("B", B)):
+            out = os.path.join(case.dir, "alone.pkl")
+            procs.append((tag, out, subprocess.Popen([_sys.executable, "-c", _SUB % {"verif": core.HERE}, os.path.join(case.dir, "settings.yaml"), out], env=env,
+                                                     stdout=subprocess.PIPE, stderr=subprocess.PIPE, text=True)))
+        with warnings.catch_warnings(), numpy.errstate(all="ignore"):
+            warnings.simplefilter("ignore")
+            cwd = os.getcwd()
+            ca = A.build()
+            ra1 = snapshot(ca)
+            cb = B.build()
+            rb1 = snapshot(cb)
+            ra2 = snapshot(ca)                       # the first calculator read again after the second one was built
+            files = {}
+            try:
+                for tag, case, c in (("A", A, ca), ("B", B, cb)):
+                    wd = os.path.join(case.dir, "out")
+                    os.mkdir(wd)
+                    os.chdir(wd)
+                    c.write_output()
+                    files[tag] = {f: open(os.path.join(wd, f), "rb").read() for f in sorted(os.listdir(wd))}
+            finally:
+                os.chdir(cwd)
+            ra3, rb3 = snapshot(ca), snapshot(cb)    # ... and after both wrote their output
+            ca2 = A.build()
+            ra4 = snapshot(ca2)                      # a fresh calculator on A's files, late in the process
+        alone = {}
+        for tag, out, p in procs:
+            so, se = p.communicate(timeout=900)
+            if p.returncode != 0:
+                res = {"reproduced": True, "observed": "calculation %s alone in a fresh process fails: %s" % (tag, se[-300:])}
+                raise StopIteration
+            alone[tag] = pickle.load(open(out, "rb"))
+        alone_files = {tag: alone[tag].pop("__files__") for tag in alone}
+        for tag in ("A", "B"):
+            if files[tag] != alone_files[tag]:
+                bad = sorted(f for f in set(files[tag]) | set(alone_files[tag]) if files[tag].get(f) != alone_files[tag].get(f))
+                res = {"reproduced": True, "history": "output files of calculation %s written in a process that also ran the other calculation vs written by %s alone in a fresh process" % (tag, tag),
+                       "observed": "files differ: %s" % bad[:6], "expected": "byte-identical files"}
+                raise StopIteration
+
+        def differs(x, y):
+            if set(x) != set(y):
+                return "result names differ: %s" % sorted(set(x) ^ set(y))[:4]
+            for k in sorted(x):
+                if x[k].shape != y[k].shape or not numpy.array_equal(x[k], y[k], equal_nan=True):
+                    return "%s differs (max |diff| %.3g)" % (k, float(numpy.nanmax(numpy.abs(x[k] - y[k]))) if x[k].shape == y[k].shape else float("nan"))
+            return None
+        for label, x, y in (("calculation A read again after calculation B was built in the same process", ra2, ra1),
+                            ("calculation A read after both calculations wrote their output", ra3, ra1), ("calculation B read after writing", rb3, rb1),
+                            ("calculation A in a process that ran nothing else", alone["A"], ra1), ("calculation B (built after A in one process) vs B alone in a fresh process", rb1, alone["B"]),
+                            ("a second calculator on A's files, built after B and after writing", ra4, ra1)):
+            d = differs(x, y)
+            if d:
+                res = {"reproduced": True, "history": label, "observed": d, "expected": "bit-identical results",
+                       "data": "two synthetic orthorhombic sets with equal file names, shapes, volume end points, component set and q-points; different interior volumes, column order and values"}
+                break
+        else:
+            res = {"reproduced": False, "evaluations": 6, "note": "two colliding synthetic calculations interleaved in one process (A, B, A again, writes, A rebuilt) agree bit for bit with "
+                   "each calculation alone in a fresh process (%d arrays each)" % len(ra1)}
+    except StopIteration:
+        pass
+    except Exception as e:
+        res = {"reproduced": True, "observed": "interleaved calculations raise %r" % (e,)}
+    finally:
+        A.close()
+        B.close()
+    _BATTERY[key] = res
+    return res
